@@ -163,6 +163,83 @@ func genPreExec(repo string) (string, error) {
 	fmt.Fprintf(&sb, "/-- functions of the package reachable from the roots (calls resolved by name: over-approximation) -/\ndef reachable : List String :=\n  %s\n\n", leanStrList(reach))
 	fmt.Fprintf(&sb, "/-- calls of a store-writing method (CommitTo, BatchCommit, BatchPut, BatchDelete, NewBatch, BatchPutRawKeyVal, BatchDeleteRawKey, Put, Delete, SaveCurrentBlock, ClearAll) inside a reachable function, as `function: call` -/\ndef storeWriteCalls : List String :=\n  %s\n\n", leanStrList(writes))
 	fmt.Fprintf(&sb, "/-- control: the same walk from AddBlock (must be non-empty; factgen fails otherwise) -/\ndef controlWriteCalls : List String :=\n  %s\n\n", leanStrList(control))
+	prov, err := overlayProviders(repo)
+	if err != nil {
+		return "", err
+	}
+	var q []string
+	for _, p := range prov {
+		q = append(q, fmt.Sprintf("(%q, %v)", p.name, p.fresh))
+	}
+	fmt.Fprintf(&sb, "/-- every function of core/store/ledgerstore and core/store/overlaydb whose result type is `*OverlayDB`, with: is its body a single\n`return` of a fresh allocation (`&OverlayDB{…}` or a call of another such function)?  (no pooling / recycling of overlays) -/\ndef overlayProviders : List (String × Bool) :=\n  [%s]\n\n", strings.Join(q, ",\n   "))
 	sb.WriteString("end OntVerif.Gen.PreExec\n")
 	return sb.String(), nil
+}
+
+type ovProvider struct {
+	name  string
+	fresh bool
+}
+
+// overlayProviders lists the functions returning *OverlayDB in the two packages and classifies their bodies.
+func overlayProviders(repo string) ([]ovProvider, error) {
+	type cand struct {
+		name string
+		fd   *ast.FuncDecl
+	}
+	var cands []cand
+	names := map[string]bool{}
+	for _, dir := range []string{"core/store/ledgerstore", "core/store/overlaydb"} {
+		files, _ := filepath.Glob(filepath.Join(repo, dir, "*.go"))
+		for _, file := range files {
+			if strings.HasSuffix(file, "_test.go") || strings.HasPrefix(filepath.Base(file), "verif_export") {
+				continue
+			}
+			fset := token.NewFileSet()
+			f, err := parser.ParseFile(fset, file, nil, 0)
+			if err != nil {
+				return nil, err
+			}
+			for _, d := range f.Decls {
+				fd, ok := d.(*ast.FuncDecl)
+				if !ok || fd.Body == nil || fd.Type.Results == nil || len(fd.Type.Results.List) != 1 {
+					continue
+				}
+				if t := exprString(fset, fd.Type.Results.List[0].Type); t != "*overlaydb.OverlayDB" && t != "*OverlayDB" {
+					continue
+				}
+				cands = append(cands, cand{filepath.Base(dir) + "." + fd.Name.Name, fd})
+				names[fd.Name.Name] = true
+			}
+		}
+	}
+	if len(cands) == 0 {
+		return nil, fmt.Errorf("no function returning *OverlayDB found in ledgerstore/overlaydb")
+	}
+	var out []ovProvider
+	for _, c := range cands {
+		fresh := false
+		if len(c.fd.Body.List) == 1 {
+			if rs, ok := c.fd.Body.List[0].(*ast.ReturnStmt); ok && len(rs.Results) == 1 {
+				switch x := rs.Results[0].(type) {
+				case *ast.UnaryExpr: // &OverlayDB{...}
+					if cl, ok := x.X.(*ast.CompositeLit); ok && x.Op == token.AND {
+						if id, ok := cl.Type.(*ast.Ident); ok && id.Name == "OverlayDB" {
+							fresh = true
+						}
+					}
+				case *ast.CallExpr:
+					switch fn := x.Fun.(type) {
+					case *ast.Ident:
+						fresh = names[fn.Name]
+					case *ast.SelectorExpr:
+						fresh = names[fn.Sel.Name]
+					}
+				}
+			}
+		}
+		out = append(out, ovProvider{c.name, fresh})
+	}
+	sort.Slice(out, func(i, j int) bool { return out[i].name < out[j].name })
+	return out, nil
 }
